@@ -12,7 +12,7 @@ from fractions import Fraction
 
 from vlib import qmode, smt
 from vlib.core import Ob, Check, DISCHARGED, FAILED, UNDECIDED, ERROR, GeneratorError, REPO, guarded
-from vlib.replay import attach
+from vlib.replay import attach, settle_crash
 
 TOL = Fraction(1, 10 ** 27)
 ZERO, ONE = Fraction(0), Fraction(1)
@@ -236,6 +236,7 @@ def run(tier, seed):
                     backend="cpython-exhaustive", detail=dict(error=res))
             attach(ob, "from src.quadrature import *\nraises_is_violation=True\ns = {}(*{!r})\np2 = ProductScheme2D(s)\n"
                        "d = DuffyScheme2D(p2, symmetric=False)\nviolated = False\n".format(FAMILIES[t[0]][1], t[1]), True)
+            settle_crash(ob)
             chk.add(ob)
             continue
         for name, S, m in res:
@@ -263,7 +264,98 @@ def run(tier, seed):
     except ImportError:
         chk.notes.append("Mode S contracts for src.quadrature not built yet")
     smt.close_pool()
+    guarded(chk, 'bounded part re-entrancy of integrate', reentrancy_clauses, chk)
     return chk.finish()
+
+
+REENTRANCY_CODE = '''
+import copy
+import numpy as np
+from src.quadrature import (gauss_quadrature_scheme, log_quadrature_scheme, ProductScheme2D, DuffyScheme2D, ProductScheme3D,
+                            DuffySchemeIdentical3D, DuffySchemeTouch3D)
+g5, g7 = gauss_quadrature_scheme(5), gauss_quadrature_scheme(7)
+p2 = ProductScheme2D(g5)
+schemes2 = {"product(gauss5)": p2, "product(gauss5).mirror_y": p2.mirror_y(), "product(log(4,4) mirrored, gauss5)":
+            ProductScheme2D(log_quadrature_scheme(4, 4).mirror(), g5), "duffy(non-symmetric)": DuffyScheme2D(ProductScheme2D(g7), symmetric=False),
+            "duffy(non-symmetric).mirror_x": DuffyScheme2D(ProductScheme2D(g7), symmetric=False).mirror_x(),
+            "duffy(symmetric).mirror_x.mirror_y": DuffyScheme2D(ProductScheme2D(g7), symmetric=True).mirror_x().mirror_y()}
+p3 = ProductScheme3D(g5)
+schemes3 = {"product3d(gauss5)": p3, "duffy-identical-3d": DuffySchemeIdentical3D(ProductScheme3D(g5), symmetric_xy=False),
+            "duffy-touch-3d": DuffySchemeTouch3D(ProductScheme3D(g5)), "product3d.mirror_z": p3.mirror_z()}
+bad = []
+Q, K = (0.25, 1.5, -1.0, 0.5), (2.0, 2.75, 0.125, 1.0)
+Q3, K3 = Q + (0.5, 1.25), K + (-2.0, -1.5)
+def close(a, b):
+    return abs(a - b) <= 1e-12 * max(1.0, abs(a), abs(b))
+def mono2(i, j):
+    return lambda x: x[0] ** i * x[1] ** j
+def mono3(i, j, k):
+    return lambda x: x[0] ** i * x[1] ** j * x[2] ** k
+# (1) an integrand that itself integrates with the SAME scheme object (iterated integral over a pair of boxes): value == product
+for name, s in schemes2.items():
+    for (i, j), (k, l) in (((0, 0), (0, 0)), ((1, 0), (0, 1)), ((1, 1), (1, 0))):
+        outer, inner = s.integrate(mono2(i, j), *Q), s.integrate(mono2(k, l), *K)
+        def f(x, s=s, i=i, j=j, k=k, l=l):
+            vals = mono2(i, j)(x)
+            w = s.integrate(mono2(k, l), *K)
+            return vals * w if isinstance(vals, np.ndarray) and vals.shape == np.shape(mono2(i, j)(x)) else vals * w
+        def f_late(x, s=s, i=i, j=j, k=k, l=l):                 # inner integral first, then the outer nodes are read
+            w = s.integrate(mono2(k, l), *K)
+            return mono2(i, j)(x) * w
+        for tag, fn in (("nodes-read-first", f), ("nodes-read-after-the-inner-integral", f_late)):
+            it = s.integrate(fn, *Q)
+            if not close(it, outer * inner):
+                bad.append((name, "iterated-integral/" + tag, (i, j, k, l), it, outer * inner))
+for name, s in schemes3.items():
+    for (i, j, k) in ((0, 0, 0), (1, 0, 1)):
+        outer, inner = s.integrate(mono3(i, j, k), *Q3), s.integrate(mono3(k, i, j), *K3)
+        def f3(x, s=s, i=i, j=j, k=k):
+            w = s.integrate(mono3(k, i, j), *K3)
+            return mono3(i, j, k)(x) * w
+        it = s.integrate(f3, *Q3)
+        if not close(it, outer * inner):
+            bad.append((name, "iterated-integral", (i, j, k), it, outer * inner))
+# 1-D
+for name, s in (("gauss5", g5), ("log(4,4).mirror", log_quadrature_scheme(4, 4).mirror())):
+    outer, inner = s.integrate(lambda x: x ** 2, 0.25, 1.5), s.integrate(lambda x: x, 2.0, 2.75)
+    it = s.integrate(lambda x, s=s: x ** 2 * s.integrate(lambda y: y, 2.0, 2.75), 0.25, 1.5)
+    if not close(it, outer * inner):
+        bad.append((name, "iterated-integral-1d", (), it, outer * inner))
+# (2) an integrand may keep the node array it was given: a later integrate call on the same scheme, on a copy.copy of it or on its
+# mirror does not change it
+for name, s in list(schemes2.items()) + list(schemes3.items()):
+    kept = []
+    box1, box2 = (Q, K) if name in schemes2 else (Q3, K3)
+    s.integrate(lambda x: (kept.append(x), np.ones(np.shape(x)[-1]))[1], *box1)
+    snap = np.array(kept[0], dtype=float, copy=True)
+    s.integrate(lambda x: np.ones(np.shape(x)[-1]), *box2)
+    copy.copy(s).integrate(lambda x: np.ones(np.shape(x)[-1]), *box2)
+    if not np.array_equal(np.asarray(kept[0], dtype=float), snap):
+        bad.append((name, "node-array-handed-to-the-integrand-changed-by-a-later-call", (), None, None))
+observed = [b[:3] + tuple(None if v is None else float(v) for v in b[3:]) for b in bad[:6]]
+violated = len(bad) > 0
+'''
+
+
+def reentrancy_clauses(chk):
+    """bounded run-time clauses on the real code (doubles): the rules stay the rules while they are in use -- nested integrate calls
+    on one scheme object (iterated integrals over pairs of boxes, as the singular-pair code does) and integrands that keep their
+    node array"""
+    from vlib.replay import run_replay
+    res = run_replay(REENTRANCY_CODE, True)
+    name = "C15/bounded/src.quadrature/integrate-is-re-entrant-and-does-not-share-its-node-array"
+    if res.get("violated"):
+        chk.add(Ob(name, FAILED, kind="bounded", backend="runtime-contract", detail=dict(observed=res.get("observed"), error=res.get("error")),
+                   replay=dict(code=REENTRANCY_CODE, raises_is_violation=True, outcome=res, confirmed=True)))
+    elif res.get("error"):
+        chk.add(Ob(name, UNDECIDED, kind="bounded", backend="runtime-contract", detail=dict(error=str(res.get("error"))[:400])))
+    else:
+        chk.add(Ob(name, DISCHARGED, kind="bounded", backend="runtime-contract"))
+    chk.add_bounded("integrate re-entrancy", 6 * 6 + 4 * 2 + 2 + 10, 4,
+                    "6 two-dimensional, 4 three-dimensional, 2 one-dimensional derived schemes; monomials within the exactness range; boxes "
+                    "(0.25,1.5)x(-1,0.5)[x(0.5,1.25)] and (2,2.75)x(0.125,1)[x(-2,-1.5)]",
+                    "iterated integral with one scheme object == product of the two integrals (1e-12); a kept node array is unchanged by later calls",
+                    [name])
 
 
 def _safe_task(t):
